@@ -48,6 +48,8 @@ def run(tier, seed, replay=None):
         if 2 <= len(p.blocks()) <= 6:
             bases.append(p)
     bases += [g.assoc_subsets_plan() for _ in range(2 if tier == "quick" else 30)]
+    # sibling sub-headers with families of their own + a doubly nested block that joins the later sibling (seeded change C05g)
+    bases += [g.sibling_groups_plan() for _ in range(2 if tier == "quick" else 20)]
     # directional overlaps (one block's row strictly generalises another's: generic payload vs concrete, wildcard vs binding):
     # `is_overlapping` must see them whichever block comes first — every run, both orders
     for mode_ in ["general", "wild"] * (2 if tier == "quick" else 20):
